@@ -29,27 +29,19 @@ def content(e):
     return json.dumps({k: v for k, v in e.items() if k not in IGNORE}, sort_keys=True)
 
 
-def run(c):
+def cross_validate(c, cfgs, drivers, label="C03"):
+    """Run `drivers` on identical seeded inputs under every configuration in `cfgs`; validate every DISTINCT outcome with the
+    configuration-free specifications.  Returns (total events, mach events)."""
     wd = c.workdir()
-    # the dispatch decision procedure, exhaustively
-    r = vlib.run_tlc("Dispatch", workers=1, timeout=300, tag="dispatch")
-    vlib.tlc_must_succeed(r, "Dispatch")
-    if r["violated"]:
-        raise vlib.ToolError("Dispatch.tla violates its own invariants (spec bug)")
-    c.add_model(r, "Dispatch.tla: all build modes x macros x feature levels; Total (never unimplemented!), Safe (never selects a backend the CPU lacks), Best")
-    for vec in ("VecChaCha", "VecBlake"):
-        v = vlib.run_tlc(vec, workers=1, timeout=600, tag="vec")
-        vlib.tlc_must_succeed(v, vec)
-        if v["violated"]:
-            raise vlib.ToolError("%s no longer reproduces the published vectors" % vec)
-    per = {d[0]: {} for d in DRIVERS}     # driver -> content -> first event (with cfg)
-    seen_cfg = {d[0]: {} for d in DRIVERS}  # driver -> content -> set of cfgs
+    per = {d[0]: {} for d in drivers}     # driver -> content -> first event (with cfg)
+    seen_cfg = {d[0]: {} for d in drivers}  # driver -> content -> set of cfgs
     machs = []
     total = 0
-    for build, force in configs(c):
+    for build, force in cfgs:
         binary = vlib.build(build)
         name = "%s/force=%d" % (build, force)
-        for dname, dargs, module, kind in DRIVERS:
+        for d in drivers:
+            dname, dargs, module, kind = d[:4]
             trace = os.path.join(wd, "c03-%s.ndjson" % dname)
             args = dargs + ["--seed", str(c.seed), "--tier", "quick", "--cfg", name] + (["--force", str(force)] if force else [])
             rc, outp = vlib.run_harness_rc(binary, args, out=trace)
@@ -72,7 +64,9 @@ def run(c):
                 per[dname].setdefault(key, evs)
                 seen_cfg[dname].setdefault(key, set()).add(name)
     # validate every DISTINCT outcome once; an outcome that differs between configurations is rejected by the (configuration-free) spec
-    for dname, dargs, module, kind in DRIVERS:
+    for d in drivers:
+        dname, dargs, module, kind = d[:4]
+        denv = d[4] if len(d) > 4 else None
         units = list(per[dname].values())
         if kind == "episodes":
             trace = os.path.join(wd, "c03-%s-all.ndjson" % dname)
@@ -86,20 +80,37 @@ def run(c):
                         return cn
                 return None
             vlib.validate_episodes(c, module, trace, lambda e, first: {"driver": dname, "ev": e["ev"], "cfg": e.get("cfg", first.get("cfg")), "res": e.get("res", "").split(":")[0]},
-                                   canary, "C03 %s" % dname)
+                                   canary, "%s %s" % (label, dname))
         else:
             recs = [evs[0] for evs in units]
 
             def mutate(e):
-                for f in ("after", "out"):
+                for f in ("after", "out", "y"):
                     if f in e and e[f]:
                         e[f][0] ^= 2
                         return
             vlib.validate_stateless(c, module, recs, lambda e: {"driver": dname, "cfg": e.get("cfg"), "res": e.get("res", "").split(":")[0],
                                                                  "ty": e.get("ty"), "op": e.get("op"), "alg": e.get("alg"), "variant": e.get("variant")},
-                                    mutate, "C03 %s" % dname, timeout=6000, workers=12)
+                                    mutate, "%s %s" % (label, dname), timeout=6000, workers=12, env=denv)
         c.cov.setdefault("distinct_outcomes_validated", {})[dname] = len(units)
         c.add_events([evs[-1] for evs in units], key=lambda e: content(e), sample=1)
+    return total, machs
+
+
+def run(c):
+    wd = c.workdir()
+    # the dispatch decision procedure, exhaustively
+    r = vlib.run_tlc("Dispatch", workers=1, timeout=300, tag="dispatch")
+    vlib.tlc_must_succeed(r, "Dispatch")
+    if r["violated"]:
+        raise vlib.ToolError("Dispatch.tla violates its own invariants (spec bug)")
+    c.add_model(r, "Dispatch.tla: all build modes x macros x feature levels; Total (never unimplemented!), Safe (never selects a backend the CPU lacks), Best")
+    for vec in ("VecChaCha", "VecBlake"):
+        v = vlib.run_tlc(vec, workers=1, timeout=600, tag="vec")
+        vlib.tlc_must_succeed(v, vec)
+        if v["violated"]:
+            raise vlib.ToolError("%s no longer reproduces the published vectors" % vec)
+    total, machs = cross_validate(c, configs(c), DRIVERS)
     # which Machine ran: against Dispatch.tla
     trace = os.path.join(wd, "c03-mach.ndjson")
     uniq = list({json.dumps({k: v for k, v in e.items() if k != "cfg"}, sort_keys=True): e for e in machs}.values())
